@@ -1,6 +1,7 @@
 // C12 — MMIO read-back / no-alias exploration over the real MMIORegion inside a Teakra, against the
 // documented field table in spec/mmio_fields.h.
 #pragma once
+#include <algorithm>
 #include "../../spec/mmio_fields.h"
 #include "sys.h"
 
@@ -81,12 +82,26 @@ inline void ApplyPrefix(Machine& m, int p) {
 }
 static const int kPrefixes = 7;
 
-inline std::vector<u16> Values(u16 a) {
+inline std::vector<u16> Values(const Table& tab, u16 a) {
     if (a == 0x1BE)
         return {0, 1, 2, 3, 4, 5, 6, 7}; // channel selector: documented width only (wider values belong to C18)
     std::vector<u16> v{0x0000, 0xFFFF, 0x5555, 0xAAAA};
     for (int b = 0; b < 16; ++b)
         v.push_back((u16)(1u << b));
+    // every value of every documented multi-bit field of at most 6 bits (mode selectors and the like), once with
+    // the other bits clear and once with the other bits set
+    for (int fi : tab.by_off[a / 2]) {
+        const spec::Field& f = tab.fields[fi];
+        if (f.width < 2 || f.width > 6)
+            continue;
+        u16 mask = (u16)(((1u << f.width) - 1) << f.lo);
+        for (u16 x = 0; x < (1u << f.width); ++x)
+            for (u16 rest : {(u16)0, (u16)0xFFFF}) {
+                u16 val = (u16)(((x << f.lo) & mask) | (rest & ~mask));
+                if (std::find(v.begin(), v.end(), val) == v.end())
+                    v.push_back(val);
+            }
+    }
     return v;
 }
 
@@ -157,7 +172,7 @@ inline void Sweep(const Table& tab, Result& res, std::unordered_set<u64>& dig, i
             continue;
         if (path == 1 && (a == 0x112 || a == 0x11E))
             continue; // page / window relocation through the DSP path are exercised by the dedicated layer
-        for (u16 v : Values(a)) {
+        for (u16 v : Values(tab, a)) {
             std::string replay = Fmt("c12 sweep %d %d %d %d %ld", path, prefix, shard, nshards, step);
             bool ok = ck.Step(ac, a, v, Fmt("prefix %d, step %ld of shard %d/%d", prefix, step, shard, nshards), replay);
             if (!ok) { // deliberate assertion (e.g. timer restart with a watchdog mode): start over behind it
@@ -390,7 +405,7 @@ inline void Run(const Args& args, Result& res) {
                "written bits, trigger bits 0, set-views old|v, and every other register that "
                "changed must be in the documented coupling table; plus ordered register pairs inside each peripheral block, the "
                "eight DMA channel windows, the 32 host mirrors and seven window relocations; distinct = distinct register images";
-    res.bound = Fmt("%d prefixes x 2 paths x 1024 offsets x 20 values (sweep, history depth up to 5120 writes per shard); all ordered "
+    res.bound = Fmt("%d prefixes x 2 paths x 1024 offsets x (20 values + every value of every documented 2..6-bit field against clear and set neighbours) (sweep, history depth up to 5120 writes per shard); all ordered "
                     "pairs of registers within 8 blocks x 4 value pairs x 2 paths; 8 channels x 14 window registers; 32 mirrors; 7 bases",
                     kPrefixes);
     res.assumptions = {"field classes and couplings come from the *.md register layouts (spec/mmio_fields.h)",
